@@ -48,6 +48,24 @@ func EncodeView(ctx context.Context, fp io.Writer, view *View, options option.Ex
 	}
 }
 
+// encodedLineBreak returns the line break in the character encoding of the output. Only the UTF-16 encodings
+// spell it differently from its UTF-8 bytes.
+func encodedLineBreak(lineBreak text.LineBreak, enc text.Encoding) []byte {
+	switch enc {
+	case text.UTF16, text.UTF16BE, text.UTF16BEM:
+		enc = text.UTF16BE
+	case text.UTF16LE, text.UTF16LEM:
+		enc = text.UTF16LE
+	default:
+		return []byte(lineBreak.Value())
+	}
+	b, err := text.Encode([]byte(lineBreak.Value()), enc)
+	if err != nil {
+		return []byte(lineBreak.Value())
+	}
+	return b
+}
+
 func encodeCSV(ctx context.Context, fp io.Writer, view *View, options option.ExportOptions) error {
 	w, err := csv.NewWriter(fp, options.LineBreak, options.Encoding)
 	if err != nil {
